@@ -169,37 +169,43 @@ def run(ctx):
         s = s.replace("exits", "@X").replace("entries", "exits").replace("@X", "entries")
         s = s.replace("start", "@S").replace("end", "start").replace("@S", "end")
         return s
-    def summary(fn):
-        out = set()
-        for s in paths.stores(fn):
-            out.add(("store", s["path"], s["op"], fn.canon(s["rhs"], subst=False) if s["rhs"] is not None else ""))
-        for c in fn.calls():
-            cal = fn.nodes[c].get("callee")
-            if cal and cal.startswith("lattice_"):
-                out.add(("call", cal, tuple(fn.canon(a, subst=False) for a in fn.args(c))))
-        for (s0, d0, c, pol) in fn.cfg.cond_edges():
-            if pol:
-                out.add(("cond", fn.canon(c, subst=False)))
-        for r in fn.find("Return"):
-            out.add(("ret", fn.canon(fn.ch(r)[0], subst=False) if fn.ch(r) else ""))
-        return out
-    def eqsort(x):
-        m = re.match(r"^\((.+) (==|!=) (.+)\)$", x)
-        if m and "(" not in m.group(1) + m.group(3):
-            l_, r_ = sorted([m.group(1), m.group(3)])
-            return "(%s %s %s)" % (l_, m.group(2), r_)
-        return x
-    def norm(t, mir):
-        return tuple((eqsort(mirror(x) if mir else x)) if isinstance(x, str) else tuple(eqsort(mirror(y) if mir else y) for y in x) for x in t)
-    a = set(norm(t, False) for t in summary(lf["lattice_traverse_next"]))
-    b = summary(lf["lattice_reverse_next"])
-    bm = set(norm(t, True) for t in b)
-    ctx.check(p4, a == bm, key(lf["lattice_traverse_next"], "mirror"), lf["lattice_traverse_next"].where(lf["lattice_traverse_next"].root), "forward and reverse `next` differ beyond the to/from mirror: only-forward %s, only-reverse %s" % (sorted(a - bm)[:3], sorted(bm - a)[:3]))
+    # compared path by path over values (symx.run_paths): the same branch decisions, calls, stores to the
+    # lattice and results, up to the to/from mirror; temporaries and merged updates do not matter
+    from .. import symx
+
+    def signature(fn, mir):
+        M = (lambda x: mirror(x)) if mir else (lambda x: x)
+        sig = set()
+        for pt in symx.run_paths(fn, P):
+            atoms = tuple(sorted((tuple(M(y) if isinstance(y, str) else y for y in k_), v_) for k_, v_ in pt.atoms.items()))
+            evs = []
+            for ev_ in pt.events:
+                if ev_[0] == "call" and ev_[1].startswith("lattice_"):
+                    evs.append(("call", ev_[1], tuple(M(a_) for a_ in ev_[2])))
+                elif ev_[0] == "store" and any(c_ in ev_[1] for c_ in ("->", "[", ".")):
+                    evs.append(("store", M(ev_[1]), M(lin.p_str(ev_[2]))))
+                elif ev_[0] == "store" and any(w_ in lin.p_str(ev_[2]) for w_ in ("exits", "entries")):
+                    evs.append(("walks", M(lin.p_str(ev_[2]))))     # which adjacency list a local walks
+            sig.add((atoms, tuple(evs), M(lin.p_str(pt.ret)) if pt.ret is not None else None))
+        return sig
+    from .. import lin
+    a = signature(lf["lattice_traverse_next"], False)
+    bm = signature(lf["lattice_reverse_next"], True)
+    ctx.check(p4, a == bm and len(a) >= 3, key(lf["lattice_traverse_next"], "mirror"), lf["lattice_traverse_next"].where(lf["lattice_traverse_next"].root), "forward and reverse `next` differ beyond the to/from mirror: only-forward %s, only-reverse %s" % ([x[1:] for x in sorted(a - bm, key=str)][:2], [x[1:] for x in sorted(bm - a, key=str)][:2]))
     tn = lf["lattice_traverse_next"]
-    dec = [s for s in paths.stores(tn) if s["path"] == "next->to->info.fanin" and s["op"] == "--"]
-    pushes = tn.calls("lattice_pushq")
-    ok = len(dec) == 1 and len(pushes) == 1 and paths.guarded(tn, pushes[0], lambda f, c, pol: paths.rel(f, c, pol, subst=False) in (("0", "==", "next->to->info.fanin"),)) and paths.always_before(tn, pushes[0], lambda e: e == dec[0]["node"])
-    ctx.check(p4, ok, key(tn, "topological"), tn.where(tn.root), "a node's exits are queued before all its incoming edges were seen (fan-in not decremented / not tested against 0)")
+    oktop, npush = True, 0
+    for pt in symx.run_paths(tn, P):
+        if not any(c_[0] == "lattice_pushq" for c_ in pt.calls):
+            continue
+        npush += 1
+        fan = [(pth, v_) for (pth, v_, n_) in pt.stores if pth.endswith("->to->info.fanin")]
+        okp = len(fan) == 1 and fan[0][1] == lin.p_add(lin.p_atom(fan[0][0]), lin.p_const(1), -1) and pt.atoms.get(("nz", lin.p_str(fan[0][1]))) is False
+        # the edge's node is decremented before its exits are queued
+        if okp:
+            order = [ev_[0] + ":" + ev_[1] for ev_ in pt.events if (ev_[0] == "store" and ev_[1] == fan[0][0]) or (ev_[0] == "call" and ev_[1] == "lattice_pushq")]
+            okp = order[0].startswith("store:")
+        oktop = oktop and okp
+    ctx.check(p4, oktop and npush >= 1, key(tn, "topological"), tn.where(tn.root), "a node's exits are queued before all its incoming edges were seen (fan-in not decremented / not tested against 0)")
     te = lf["lattice_traverse_edges"]
     incs = [s for s in paths.stores(te) if s["path"].endswith("info.fanin")]
     ctx.check(p4, sorted((s["path"], s["op"]) for s in incs) == [("node->info.fanin", "="), ("x->link->to->info.fanin", "++")], key(te, "fanin"), te.where(te.root), "fan-in is not reset and counted once per link into its destination (%s)" % [(s["path"], s["op"]) for s in incs])
@@ -240,9 +246,12 @@ def run(ctx):
         if po.k(call) == "Call":
             aa = po.args(call)
             from .. import lin
-            pl = lin.poly(po, aa[2], subst=False)
-            mons = sorted(m[0] for m in pl if len(m) == 1 and pl[m] == 1)
-            okbe = po.canon(aa[1], subst=False) == "link->beta" and len(pl) == 3 and "bprob" in mons and "x->link->beta" in mons and any("ascale" in " ".join(m) and "x->link->ascr" in " ".join(m) and pl[m] == 1 for m in pl)
+            for sub in (False, True):       # the scaled score may sit in a temporary
+                pl = lin.poly(po, aa[2], subst=sub)
+                mons = sorted(m[0] for m in pl if len(m) == 1 and pl[m] == 1)
+                bp_ = lin.poly(po, [i for i in po.walk(aa[2]) if po.k(i) == "DeclRef" and po.nodes[i]["name"] == "bprob"][0], subst=sub) if any(po.k(i) == "DeclRef" and po.nodes[i]["name"] == "bprob" for i in po.walk(aa[2])) else None
+                okbe = okbe or (po.canon(aa[1], subst=False) == "link->beta" and bp_ is not None and "x->link->beta" in mons and any("ascale" in " ".join(m) and "x->link->ascr" in " ".join(m) and pl[m] == 1 for m in pl)
+                                and lin.p_add(lin.p_add(pl, bp_, -1), lin.p_atom("x->link->beta"), -1) and len(lin.p_add(lin.p_add(pl, bp_, -1), lin.p_atom("x->link->beta"), -1)) == 1)
     ctx.check(p5, okbe, key(po, "beta"), po.where(po.root), "beta recurrence is %s" % [po.canon(s["rhs"], subst=False) for s in be])
     zi = sorted((g.name, s["path"], g.canon(s["rhs"], subst=False)) for g in (bp, po) for s in paths.stores(g) if s["path"] in ("x->link->alpha", "x->link->beta", "dag->norm") and "logmath_get_zero" in g.canon(s["rhs"], subst=False))
     ctx.check(p5, len(zi) == 3, "posterior:zero-init", bp.where(bp.root), "alpha / beta / norm are not initialised to log-zero (%s)" % zi)
